@@ -263,8 +263,9 @@ fn dispatch_c10(cmd: &str, args: &[String], tier: &String, seed: u64, out: &Stri
             props::c10::run(&tier, seed, &out);
             0
         }
-        "c10-one" => props::c10::replay_slider(&arg(&args, "--piece").unwrap(), arg(&args, "--sq").unwrap().parse().unwrap(), arg(&args, "--occ").unwrap().parse().unwrap()),
-        "c10-between" => props::c10::replay_between(arg(&args, "--from").unwrap().parse().unwrap(), arg(&args, "--to").unwrap().parse().unwrap()),
+        "c10-one" => props::c10::replay_slider(&arg(&args, "--piece").unwrap(), arg(&args, "--sq").unwrap().parse().unwrap(), arg(&args, "--occ").unwrap().parse().unwrap(), arg(&args, "--cpus").and_then(|c| c.parse().ok()).unwrap_or(0)),
+        "c10-hist" => props::c10::replay_hist(&arg(&args, "--seq").unwrap(), arg(&args, "--cpus").and_then(|c| c.parse().ok()).unwrap_or(0)),
+        "c10-between" => props::c10::replay_between(arg(&args, "--from").unwrap().parse().unwrap(), arg(&args, "--to").unwrap().parse().unwrap(), arg(&args, "--cpus").and_then(|c| c.parse().ok()).unwrap_or(0)),
         _ => return None,
     })
 }
